@@ -155,6 +155,19 @@ CHECKS = {
              "accept with equal value / identical bytes or both reject, and sizeof must agree.",
         note="pure differential: no reference model; display subclasses compared by value",
         design="§3 C12"),
+    "C14": dict(
+        technique="bounded-exhaustive enumeration of RawCopy shapes x placements x start offsets x payloads, and exhaustive single-bit (thorough: two-bit) fault enumeration over checksummed messages, on the real code",
+        text="RawCopy over 11 inner constructs in 9 placements (top level from start offsets 0/1/3, after a header, inside Prefixed, "
+             "FixedSized, NullTerminated and doubly nested substreams, twice in a row, in Array and GreedyRange) is parsed on every "
+             "payload over a 6-symbol alphabet up to length 4 (5 thorough): data must equal the outer stream slice between the reported "
+             "offsets, length their difference, parsing data alone must give value, building from value / from data / from both must "
+             "agree (data verbatim, incl. empty). Checksum fields (md5[:4], sha1, sha256, crc32, sum8) over fixed and variable layouts, "
+             "after a header and inside a Prefixed message: every built message verifies with the digest equal to the hash of the covered "
+             "slice, and every single-bit flip of every covered byte and of the digest (all 2-bit flips for the strong digests in "
+             "thorough) raises ChecksumError (fixed layout) or is at least not accepted (variable layout).",
+        note="hashlib/zlib define the digests; slice identity with the outer stream is claimed for plain substreams (Prefixed, FixedSized, "
+             "NullTerminated), offsets under transforms are C08's business",
+        design="§3 C14"),
 }
 
 PENDING_REASON = "check not built yet in this round (see DESIGN.md §7 build order); it will be decided by the same bounded-exhaustive engine"
